@@ -3,7 +3,7 @@
    per lexer (the models share names).  CSS and JS clauses are added as their models are merged (props.d/C02.json). *)
 From Verif Require Import Common.Base.
 From Verif Require Common.Lx Cursor.Model Cursor.Proofs Xml.Model Xml.Step Xml.Proofs.
-From Verif Require Gen.Tables Html.Model Html.ListLemmas Html.Safety Html.Step Html.Proofs.
+From Verif Require Gen.Tables Html.Model Html.ListLemmas Html.Safety Html.Step Html.Proofs Html.EndTag.
 From Verif Require JsLex.Model JsLex.Lemmas JsLex.Next JsLex.Proofs JsLex.Relex JsLex.RelexNext.
 
 Module Cursor.
@@ -45,11 +45,11 @@ Module Xml.
 End Xml.
 
 Module Html.
-  Import Verif.Common.Lx Verif.Gen.Tables Verif.Html.Model Verif.Html.ListLemmas Verif.Html.Safety Verif.Html.Step Verif.Html.Proofs.
+  Import Verif.Common.Lx Verif.Gen.Tables Verif.Html.Model Verif.Html.ListLemmas Verif.Html.Safety Verif.Html.Step Verif.Html.Proofs Verif.Html.EndTag.
   (* up to the first ErrorToken the tokens are non-empty, in order, inside the input, end at the reported offset and
      cover everything except whitespace before the '>' / '/>' of a tag; their bytes are the input bytes with exactly
      one view lower-cased, fixed by the token type (the tag name of start tags and svg/math/xml, the attribute name
-     unless it contains a template, the WHOLE end tag, nothing else) *)
+     unless it contains a template, the tag name of end tags, nothing else) *)
   Theorem html_tokens_tile :
     forall c d n tr, cfg_ok c -> run c n (new_lexer d) = Ok tr -> tiles d 0 tr.
   Proof. exact html_tiling_proof. Qed.
@@ -59,14 +59,14 @@ Module Html.
     forall c d n tr, cfg_ok c -> run c n (new_lexer d) = Ok tr -> Forall subslices_at tr.
   Proof. exact html_subslices_proof. Qed.
   Print Assumptions html_text_attr_subslices.
-  (* REFUTED reading "only the case of tag and attribute names is altered": the whole end tag is lower-cased
-     (known finding c02-case:endtag) *)
-  Theorem html_endtag_case_refuted :
-    exists d v l' i, next no_tmpl (new_lexer d) = Ok (EndTagT, Some v, l') /\
-      so v <= i < so v + sn v /\ getz d (i - 1) = 61 /\ getz (lbuf (lz l')) i <> getz d i /\
-      view_bytes (lbuf (lz l')) v = [60; 47; 97; 32; 120; 61; 121; 62].
-  Proof. exact html_endtag_case_refuted_proof. Qed.
-  Print Assumptions html_endtag_case_refuted.
+  (* "the only bytes altered are the ASCII case of tag and attribute names": for every EndTag token before the first
+     error the token bytes are the input bytes with only the tag name (the bytes after "</" up to the first
+     whitespace, '>' or '/') lower-cased, all other bytes as they were (repaired by /repo 980d021; before it the whole
+     end tag was lower-cased) *)
+  Theorem html_endtag_only_name_lowercased :
+    forall c d n tr, cfg_ok c -> run c n (new_lexer d) = Ok tr -> Forall (endtag_faithful d) (until_error tr).
+  Proof. exact html_endtag_faithful_proof. Qed.
+  Print Assumptions html_endtag_only_name_lowercased.
 End Html.
 
 Module JsLex.
